@@ -7,18 +7,31 @@ ROOT = os.path.dirname(os.path.dirname(os.path.abspath(__file__)))
 sys.path.insert(0, ROOT)
 from pyvc import props as P
 
-ids = sys.argv[1:] or sorted(os.listdir(os.path.join(ROOT, "seeded")))
+KF = json.load(open(os.path.join(ROOT, "known_findings.json")))
+REVERTS = {"R-" + k["commit"]: k for k in KF if k.get("kind") == "fixed"}
+ids = sys.argv[1:] or (sorted(d for d in os.listdir(os.path.join(ROOT, "seeded")) if os.path.isdir(os.path.join(ROOT, "seeded", d)))
+                       + sorted(REVERTS))
 out = {}
 
 
 def run(sid):
-    d = os.path.join(ROOT, "seeded", sid)
-    meta = json.load(open(os.path.join(d, "meta.json")))
-    prop = meta["property"]
     tmp = tempfile.mkdtemp(prefix="verif-seed-")
+    if sid in REVERTS:
+        # the inverse of a fix: commit must be detected by the property it was made for
+        k = REVERTS[sid]
+        meta = {"property": k["property"], "summary": "revert of fix " + k["commit"] + ": " + k["what"][:80], "functions": []}
+        pfile = os.path.join(tmp, "revert.diff")
+        with open(pfile, "w") as f:
+            f.write(subprocess.run(["git", "-C", "/repo", "diff", k["commit"], k["commit"] + "~1", "--", "xandikos"],
+                                   capture_output=True, text=True).stdout)
+    else:
+        d = os.path.join(ROOT, "seeded", sid)
+        meta = json.load(open(os.path.join(d, "meta.json")))
+        pfile = os.path.join(d, "patch.diff")
+    prop = meta["property"]
     try:
         shutil.copytree("/repo/xandikos", os.path.join(tmp, "xandikos"), ignore=shutil.ignore_patterns("__pycache__"))
-        r = subprocess.run(["patch", "-p1", "-s", "-F5", "-i", os.path.join(d, "patch.diff")], cwd=tmp, capture_output=True, text=True)
+        r = subprocess.run(["patch", "-p1", "-s", "-F5", "-i", pfile], cwd=tmp, capture_output=True, text=True)
         if r.returncode != 0:
             return sid, {"property": prop, "result": "PATCH-FAILED", "detail": r.stdout[-200:]}
         res = {}
@@ -34,6 +47,7 @@ def run(sid):
             t0 = time.time()
             rr = subprocess.run(["python3-vt", "-m", "pyvc.check", p], cwd=ROOT, env=env, capture_output=True, text=True, timeout=3600)
             lines = [l for l in rr.stdout.splitlines() if l.startswith(("VIOLATION", "UNDECIDED", "CHECKER-ERROR", "KNOWN"))]
+            lines.sort(key=lambda l: 0 if l.startswith("VIOLATION") else 1)
             res[p] = {"exit": rr.returncode, "lines": [l[:220] for l in lines[:4]], "s": round(time.time() - t0)}
         return sid, {"property": prop, "summary": meta.get("summary", "")[:100], "functions": meta.get("functions"), "checks": res}
     finally:
